@@ -43,7 +43,7 @@ fn run_multi(case: &MultiCase, ctx: &mut Ctx, prop: &'static str, nontrivial: &[
 
 fn classes(ctx: &mut Ctx, feats: &BTreeSet<String>) {
     for f in feats {
-        if !f.starts_with("k:") {
+        if true {
             ctx.class(f);
         }
     }
